@@ -283,6 +283,25 @@ def decoder_fields(ctx, f, adt_path):
             alts = sorted({n[3] for n in nodes if n[0] == "agg" and n[1] == "adt" and not n[5] and n[3] and _field_adt(ctx, adt_path, name) and strip_generics(n[2]) == _field_adt(ctx, adt_path, name)})
             if alts:
                 CONST_ALTS.setdefault((adt_path, name), set()).update(alts)
+            if not ex and not calls:
+                # value selected by control flow (a canonicalising match on decoded tags): take the
+                # extractions that feed the discriminants of the switches dominating the choice
+                nodes2 = control_slice_nodes(ctx, g, op)
+                CONTROL_FIELDS.add((adt_path, name))
+                seen2 = set()
+                for n in nodes2:
+                    got = None
+                    if n[0] == "binop" and n[1] == "Shr" and _const_int(n[3]) is not None:
+                        v, m = _unmask(n[2])
+                        if m is not None:
+                            got = (m, _const_int(n[3]), expr_str(v))
+                            seen2.add(expr_str(n[2]))
+                    elif n[0] == "binop" and n[1] == "BitAnd":
+                        v, m = _unmask(n)
+                        if m is not None and expr_str(n) not in seen2:
+                            got = (m, None, expr_str(v))
+                    if got and got not in ex:
+                        ex.append(got)
             # a bare mask that is also the operand of a recorded shift is not a separate field
             shifted = {(m, src) for m, k, src in ex if k is not None}
             out[name] = [(m, k, src) for m, k, src in ex if k is not None or (m, src) not in shifted]
@@ -341,6 +360,39 @@ def helper_slice_nodes(ctx, nodes, depth=0):
     return out
 
 
+def control_slice_nodes(ctx, g, op):
+    """Slice nodes of the discriminants of the switches that dominate the definitions of the
+    (constant-valued) variable `op`."""
+    dom = dominators(g)
+    ebu = ExprBuilder(ctx.prog, g, user_stop=True)
+    names = {vn: l for vn, l, pj in g.var_places if not pj}
+    todo = [op]
+    blocks = set()
+    seenv = set()
+    while todo:
+        x = todo.pop()
+        for y in walk(x):
+            if y[0] == "place" and re.match(r"^\w+$", y[1]) and y[1] in names and y[1] not in seenv:
+                seenv.add(y[1])
+                for d in g.defs(names[y[1]]):
+                    if d[0] in ("assign", "call"):
+                        blocks.add(d[1])
+                        todo.append(ebu._def_expr(d, 0, (names[y[1]],)))
+                    elif d[0] == "partial":
+                        blocks.add(d[1])
+    out = []
+    sw = set()
+    for b in blocks:
+        for s_ in dom.get(b, ()):
+            if g.blocks[s_]["term"]["k"] == "switch":
+                sw.add(s_)
+    for s_ in sorted(sw):
+        e = ebu.operand(g.blocks[s_]["term"]["discr"])
+        calls, places, nodes = backslice(ctx.prog, g, e, user_stop=True)
+        out.extend(nodes)
+    return out
+
+
 def decoder_const_fields(ctx, f, adt_path):
     """Fields of the returned aggregate whose data origins are enum constants only."""
     out = set()
@@ -358,6 +410,7 @@ def decoder_const_fields(ctx, f, adt_path):
 
 
 CONST_ALTS = {}
+CONTROL_FIELDS = set()
 
 
 def _field_adt(ctx, adt_path, field):
@@ -393,6 +446,7 @@ def _tz(m):
 def c05_l1(ctx):
     types = codec_types(ctx)
     CONST_ALTS.clear()
+    CONTROL_FIELDS.clear()
     if len(types) < 30:
         raise Anchor("C05-L1", "types with encode+decode (found %d)" % len(types))
     n = 0
@@ -442,7 +496,7 @@ def c05_l1(ctx):
                 continue  # decoded from bits, encoded through a helper (tables are L4's business)
             problems = []
             alts = CONST_ALTS.get((path, fld))
-            if alts:
+            if alts and (path, fld) not in CONTROL_FIELDS:
                 problems.append("the decoder can replace the decoded bits of %s by the constant(s) %s: the value the encoder wrote is not always the value read back" % (fld, sorted(alts)))
             for g, lf in E:
                 rg = rg_cache.setdefault(g.norm, Ranges(ctx.prog, g))
